@@ -124,4 +124,19 @@ theorem expansion_as_specified (sh : Shell) (g : Grammar) (order : List String)
       (Check.resolve (order.foldl Check.resStep (Check.tableOf sh g, u)).1 (Check.applyPick sh g e) u').1 :=
   Check.expansion_correct sh g order hnodup hro e hd u u' k hk
 
+/-- **End to end over the model**: for every grammar and shell the model of check.rs accepts and
+every work-list order, the raw automaton accepts exactly the label sequences of the words of the
+grammar's *meaning* (`Spec.meaningAt`: choice of definitions, expansion, descriptions, words, levels;
+`denPos`: the words of an expression, position by position). -/
+theorem C02_end_to_end (σ : Schedule) (g : Grammar) (sh : Shell) (v : Check.Valid) (pool : RxPool)
+    (symOf : Nat → Option Inp) (a : Auto) (hv : Check.validate g sh = .ok v)
+    (hsym : ∀ p, p < v.expr.leafCount → (symOf p).isSome) (hend : symOf v.expr.leafCount = none)
+    (h : buildAuto σ (Regex.ofExpr v.expr pool).1 symOf = some a) :
+    ∀ w : List Inp, a.acceptsInp w = true ↔
+      ∃ ps, (Spec.meaningAt (Check.topSpan g) g sh).denPos 0 ps ∧ ps.map symOf = w.map some := by
+  have he := Check.validate_expr_eq_meaning g sh v hv
+  intro w
+  rw [← he]
+  exact C02_raw_model σ v.expr pool symOf a hsym hend h w
+
 end Complgen.Props.C02
